@@ -17,6 +17,8 @@ int keys_live();
 extern int fail_create_kth;            // F11: k-th pthread_create from now fails with EAGAIN (0 = none)
 extern int fail_key_create_kth;
 int detach_native(pthread_t th);       // pthread_detach on a native id (which may have been recycled)
+extern int fail_mutex_trylock_kth;     // k-th pthread_mutex_trylock from now fails with EAGAIN (not EBUSY): the caller does not get the mutex
+extern int fail_setname_kth;           // k-th pthread_setname_np from now fails with EPERM
 extern int fail_mutex_lock_kth;        // k-th pthread_mutex_lock from now fails with EAGAIN (the caller does not get the mutex)
 extern int mutex_lock_failures[];      // per task: how many of its pthread_mutex_lock calls were made to fail
 } }
